@@ -355,8 +355,12 @@ def main(argv=None):
     if merged['harness']:
         evid['coverage']['harness_errors'] = merged['harness'][:5]
     if not args.unit:
-        os.makedirs(os.path.join(VERIF_DIR, 'evidence'), exist_ok=True)
-        with open(os.path.join(VERIF_DIR, 'evidence', mod.ID + '.json'), 'w') as f:
+        evdir = os.path.join(VERIF_DIR, 'evidence')
+        if os.path.realpath(os.environ.get('VERIF_REPO', '/repo')) != '/repo':
+            # sensitivity run against a scratch copy: not evidence about /repo
+            evdir = os.path.join(VERIF_DIR, '.work', 'mutant-evidence')
+        os.makedirs(evdir, exist_ok=True)
+        with open(os.path.join(evdir, mod.ID + '.json'), 'w') as f:
             json.dump(evid, f, indent=1, default=repr)
     print('%s tier=%s seed=%d evaluations=%d distinct_nontrivial=%d excluded_known=%d '
           'inconclusive=%d violations=%d wall=%.1fs' % (
